@@ -175,10 +175,13 @@ CHECKS = {
         text='Character-level model of str.split / split("=",1) / split(",") / int() (sign, underscores) and of str2msg + the checked '
              'constructor; theorems: parse_string fails with ValueError and nothing else on EVERY text; parse_string_stream is never '
              'aborted and reports exactly skipped / message / error-with-1-based-line-number per line; from_dict(dict()) = id on every valid '
-             'message; int(str(n)) = n for all integers. str/from_str bytes and outcomes are tied by correspondence (valid and malformed '
+             'message; C14_from_str_str: from_str(str(m)) = m for EVERY valid message of all 18 types (any attribute values, sysex data of any '
+             'length, integer times and two-decimal float times), proved at character level through split(), split("=",1), int(), float() '
+             'and the parenthesised data list; int(str(n)) = n for all integers. str/from_str bytes and outcomes are tied by correspondence (valid and malformed '
              'texts, streams); str, dict and every repr/eval round trip (messages, meta, tracks of length 0/1/2+, files) are decided by the '
              'oracle on the implementation.',
-        note='PARTIAL: from_str(str(m)) = m is not yet a theorem (oracle + correspondence only); eval, the full int()/float() grammar and float printing are CPython\'s.',
+        note='PARTIAL: repr/eval round trips (messages, meta messages, tracks, files) and float times beyond two decimals / exponent notation rest on the '
+             'oracle + correspondence; eval, the full int()/float() grammar and float printing are CPython\'s.',
         technique='Lean 4 proof (shape invariant of parsed keyword values through the checked constructor; induction over lines) over a hand model; differential correspondence + eval-based oracle',
         design='5 C14'),
     'C10': dict(
